@@ -88,9 +88,143 @@ def shape_cases():
         yield ("description-shapes:%s:%d" % ("mixed" if k < n else "uniform", k % n), sch)
 
 
+CUSTOM_SDL = """
+directive @tag(name: String, n: Int) on SCHEMA | SCALAR | OBJECT | FIELD_DEFINITION | ARGUMENT_DEFINITION | INTERFACE | UNION | ENUM | ENUM_VALUE | INPUT_OBJECT | INPUT_FIELD_DEFINITION
+directive @other(xs: [Int], flag: Boolean, e: E, f: Float) on SCHEMA | SCALAR | OBJECT | FIELD_DEFINITION | ARGUMENT_DEFINITION | INTERFACE | UNION | ENUM | ENUM_VALUE | INPUT_OBJECT | INPUT_FIELD_DEFINITION
+"a directive with a decorated argument"
+directive @withArg(a: Int = 2 @tag(name: "dir-arg"), "described" b: String @other) on FIELD
+schema @tag(name: "schema") @other { query: Query }
+scalar S @tag(name: "scalar")
+scalar Plain
+type Query implements Node @tag(name: "obj") @other(xs: [1, 2], flag: true) {
+  id: ID @deprecated @tag
+  f(a: Int = 1 @tag(n: 2), "desc" b: String @other(xs: [], e: A, f: 1.5)): Int @deprecated(reason: "x") @tag(name: "f \\"q\\" \\\\ é")
+  g(a: Int @tag, b: Int): S @other
+  h: Plain @deprecated
+}
+interface Node @tag { id: ID @tag @other }
+union U @tag(name: "u") = Query
+enum E @tag { A @tag(name: "a") B @deprecated "described" C @other @deprecated(reason: "gone") }
+input In @tag @other { x: Int = 3 @tag(n: 1), y: E = A @other, z: [Int] }
+extend type Query @tag(name: "ext")
+"""
+
+CUSTOM_OPTS = [True, ["tag"], ["other"], ["nope"], ["deprecated", "tag"]]
+
+
+def custom_req(ws, o, ind):
+    c = o["include_custom_schema_directives"]
+    return {"op": "printTA", "schema": ws["schema"], "apps": ws["apps"], "indent": ind, "descriptions": o["include_descriptions"],
+            "custom": bool(c), "whitelist": list(c) if isinstance(c, (list, tuple)) else None}
+
+
+def run_custom(ctx, histories, wire_schema):
+    """The total model WITH applied schema directives (`SdlPrintTA.printSchemaTA`, theorem `print_schema_text_parses_custom`)
+    against the real printer: every history call with a truthy `include_custom_schema_directives`, plus a fixed corpus
+    (`CUSTOM_SDL`: an application at every site the printer visits, @deprecated next to custom directives, extension
+    nodes) under `True`, three whitelists, a whitelist that keeps nothing, two indents, descriptions on/off."""
+    from py_gql import build_schema
+    from py_gql.lang import parse
+    reqs, meta, seen = [], [], set()
+    try:
+        sch = build_schema(CUSTOM_SDL)
+        ws = wire_schema(sch)
+        for c in CUSTOM_OPTS:
+            for indent in (4, "\t"):
+                for wd in (True, False):
+                    o = dict(indent=indent, include_descriptions=wd, include_introspection=False, include_custom_schema_directives=c)
+                    ind = (" " * indent) if isinstance(indent, int) else indent
+                    real = sch.to_string(**o)
+                    reqs.append(custom_req(ws, o, ind))
+                    meta.append(("custom-corpus:%s" % ("all" if c is True else "+".join(c)), o, real, True))
+                    ctx.stat("textTA-corpus")
+                    if wd:
+                        # direct oracle: the applied directives survive print -> build -> print (same text)
+                        try:
+                            sch2 = build_schema(real)
+                            again = sch2.to_string(**o)
+                        except Exception as e:  # noqa
+                            ctx.fail("rebuild-raises:%s:custom-corpus" % type(e).__name__, "build_schema rejects the printed corpus schema",
+                                     {"part": PART, "opts": o, "real": real})
+                            continue
+                        label = "all" if c is True else "+".join(c)
+                        spec = ("include", "skip", "deprecated")
+                        want = {p: [a for a in apps if a["name"] not in spec and (c is True or a["name"] in c)] for p, apps in ws["apps"]}
+                        got = {p: [a for a in apps if a["name"] not in spec] for p, apps in wire_schema(sch2)["apps"]}
+                        want = {p: v for p, v in want.items() if v}
+                        got = {p: v for p, v in got.items() if v}
+                        if want != got:
+                            bad = sorted(p for p in set(want) | set(got) if want.get(p) != got.get(p))
+                            ctx.fail("roundtrip-differs:custom-corpus:applications:custom=%s" % label,
+                                     "the printed directive applications are not the ones the rebuilt schema carries (first at %r)" % bad[0],
+                                     {"part": PART, "opts": o, "real": real, "paths": bad})
+                        elif again != real:
+                            # a whitelist that filters every node of an element leaves ' ' behind: known finding C12/5
+                            ctx.fail(("not-a-fixpoint:custom-corpus:custom=all" if c is True else "not-a-fixpoint:C12-5-custom-corpus"),
+                                     "to_string(build(to_string(s))) differs with applied directives", {"part": PART, "opts": o, "real": real, "again": again})
+                        else:
+                            ctx.nontrivial(("custom-corpus-fixpoint", label, ind))
+    except Exception as e:  # noqa
+        ctx.fail("internal:custom-corpus:%s" % type(e).__name__, "the applied-directive corpus could not be built / printed",
+                 {"part": PART, "error": repr(e)})
+    for schemas, hist, outs in histories:
+        for (i, o), out in zip(hist, outs):
+            if o["include_introspection"] or not o["include_custom_schema_directives"] or out[0] != "ok":
+                continue
+            ind = (" " * o["indent"]) if isinstance(o["indent"], int) else o["indent"]
+            c = o["include_custom_schema_directives"]
+            key = (out[1], ind, o["include_descriptions"], repr(c))
+            if key in seen:
+                continue
+            seen.add(key)
+            ws = wire_schema(schemas[i][2])
+            reqs.append(custom_req(ws, o, ind))
+            meta.append((schemas[i][1], o, out[1], False))
+    if not reqs:
+        return
+    answers = ctx.driver.ask(reqs)
+    n_wf = n_desc = n_kept = n_block = 0
+    for (src, o, real, corpus), a in zip(meta, answers):
+        ctx.count()
+        ctx.stat("textTA")
+        detail = {"part": PART, "source": src, "opts": o, "real": real, "model": a.get("text")}
+        if a.get("text") != real:
+            ctx.fail("corr:printTA:text", "the total model printSchemaTA and the implementation print different texts", detail,
+                     kind="correspondence")
+            continue
+        if not a.get("same"):
+            ctx.fail("corr:printTA:first-model", "the two models of the printer (printSchemaTA / printSchema) differ", detail,
+                     kind="correspondence")
+        if a.get("buildErased") is False:
+            ctx.fail("corr:printTA:buildIgnoresCustom", "the builder model gives different results for the denoted document and for the "
+                     "document without its applied custom directives (BuildIgnoresCustomStatement evaluated)", detail, kind="correspondence")
+        if o["include_descriptions"]:
+            n_desc += 1
+            if a.get("wf"):
+                n_wf += 1
+                n_kept += a.get("kept", 0) > 0
+                n_block += bool(a.get("blockOnly"))
+                if a.get("kept", 0) > 0:
+                    ctx.nontrivial(("textTA", real))
+                if not a.get("parses"):
+                    ctx.fail("corr:printTA:textParses", "printTextWFA holds but the model's lexer+parser do not return the denoted tree "
+                             "(print_schema_text_parses_custom evaluated)", detail, kind="correspondence")
+                try:
+                    parse(real, allow_type_system=True)
+                except Exception as e:  # noqa
+                    ctx.fail("text-unparsable:%s:printTextWFA" % type(e).__name__,
+                             "printTextWFA holds but the real parser rejects the real printed text", detail)
+    ctx.extra["printTextWFA_satisfied"] = ("%d of %d printed schemas (descriptions on, custom directives on); %d of them print at least one "
+                                           "application, %d write the schema block only because of a directive node" % (n_wf, n_desc, n_kept, n_block))
+
+
 def run(ctx, histories, wire_schema):
     if not ctx.model_ok or not ctx.driver.available():
         return
+    try:
+        run_custom(ctx, histories, wire_schema)
+    except Exception as e:  # noqa
+        ctx.fail("internal:textTA:%s" % type(e).__name__, "the applied-directive text correspondence crashed", {"part": PART, "error": repr(e)})
     from py_gql.lang import parse
     reqs, meta = [], []
     seen = set()
